@@ -110,7 +110,7 @@ func (p *gcpPicker) Pick(info balancer.PickInfo) (balancer.PickResult, error) {
 			bindKeys, err := getAffinityKeysFromMessage(locator, gcpCtx.replyMsg)
 			if err == nil {
 				for _, bk := range bindKeys {
-					p.gb.bindSubConn(bk, scRef.subConn)
+					p.gb.bindSubConn(bk, p.gb.currentSubConn(scRef))
 				}
 			}
 		case grpc_gcp.AffinityConfig_UNBIND:
@@ -118,10 +118,11 @@ func (p *gcpPicker) Pick(info balancer.PickInfo) (balancer.PickResult, error) {
 		}
 	}
 
+	sc := p.gb.currentSubConn(scRef)
 	if p.log.V(FINEST) {
-		p.log.Infof("picked SubConn: %p", scRef.subConn)
+		p.log.Infof("picked SubConn: %p", sc)
 	}
-	return balancer.PickResult{SubConn: scRef.subConn, Done: callback}, nil
+	return balancer.PickResult{SubConn: sc, Done: callback}, nil
 }
 
 // unresponsiveWindow returns channel pool's unresponsiveDetectionMs multiplied
@@ -160,7 +161,7 @@ func (p *gcpPicker) getAndIncrementSubConnRef(ctx context.Context, boundKey stri
 	if cmd == grpc_gcp.AffinityConfig_BIND && p.gb.cfg.GetChannelPool().GetBindPickStrategy() == grpc_gcp.ChannelPoolConfig_ROUND_ROBIN {
 		scRef := p.gb.getSubConnRoundRobin(ctx)
 		if p.log.V(FINEST) {
-			p.log.Infof("picking SubConn for round-robin bind: %p", scRef.subConn)
+			p.log.Infof("picking SubConn for round-robin bind: %p", p.gb.currentSubConn(scRef))
 		}
 		scRef.streamsIncr()
 		return scRef, nil
